@@ -18,21 +18,29 @@ func EncodeEnvelopWithRemoting(codec vivid.Codec, envelop vivid.Envelop) (data [
 	if envelop.Message() == nil {
 		return nil, fmt.Errorf("cannot encode envelop: nil message")
 	}
-	var messageDesc = messages.QueryMessageDesc(envelop.Message())
+	var message = envelop.Message()
+	// 普通 error（非 *vivid.Error）没有线格式：与 PipeResult 对错误的处理保持一致，按 ErrorException 携带其文本传输，
+	// 使远程 Ask 收到的失败回复与本地一样令 Future 以错误完成，而不是回复被丢弃、请求方等到超时
+	if plainErr, ok := message.(error); ok {
+		if _, isVividError := plainErr.(*vivid.Error); !isVividError {
+			message = vivid.ErrorException.With(plainErr)
+		}
+	}
+	var messageDesc = messages.QueryMessageDesc(message)
 	var writer = messages.NewWriterFromPool()
 	defer messages.ReleaseWriterToPool(writer)
 	if messageDesc.IsOutside() {
 		if codec == nil {
-			return nil, fmt.Errorf("no codec configured for external message: %T", envelop.Message())
+			return nil, fmt.Errorf("no codec configured for external message: %T", message)
 		}
-		data, err = codec.Encode(envelop.Message())
+		data, err = codec.Encode(message)
 		if err != nil {
 			return nil, err
 		}
 		writer.WriteBytesWithLength(data, 4)
 	} else {
 		// 内部消息序列化
-		err = messages.SerializeRemotingMessage(codec, writer, messageDesc, envelop.Message())
+		err = messages.SerializeRemotingMessage(codec, writer, messageDesc, message)
 		if err != nil {
 			return nil, err
 		}
